@@ -9,7 +9,8 @@ import vlib
 CODES = {1: "whole-request outcome differs", 2: "a receipt is missing or unexpected for an invocation",
          3: "receipt class (ok / error name) differs", 4: "ran or issuer of a receipt differs",
          5: "handler call log differs (as a multiset)", 6: "number of receipts differs",
-         7: "the model refuses the body (request.Decode) although the server served it", 9: "model ran out of fuel"}
+         7: "the model refuses the body (request.Decode) although the server served it",
+         8: "effects of a receipt differ (fork links in order, join)", 9: "model ran out of fuel"}
 
 
 def start(wd):
